@@ -223,7 +223,8 @@ pub fn gen_circuit(r: &mut Rng, big: bool) -> Plain {
     let mut w: Vec<L> = vec![0; n_in];
     let mut e = vec![];
     let huge = r.chance(1, if big { 20 } else { 150 });
-    let m = if huge { r.range(10, 40) } else { r.range(0, if big { 9 } else { 6 }) };
+    let giant = huge && r.chance(1, 4);
+    let m = if giant { *r.pick(&[70, 140, 280]) } else if huge { r.range(10, 40) } else { r.range(0, if big { 9 } else { 6 }) };
     for id in 0..m {
         let n = w.len();
         let ks = if n == 0 { 0 } else { r.range(0, 3) };
@@ -282,6 +283,8 @@ impl Check for C16 {
         let cyclic = has_op_cycle(&c.f);
         ex.workload_fp = mix(c.f.fingerprint(), c.inputs.iter().flatten().fold(7, |a, x| mix(a, *x)));
         ex.nontrivial = c.f.m() >= 1;
+        ex.probe_if(c.f.n() >= 64 || c.f.m() >= 64 || c.f.s.len() >= 64 || c.f.t.len() >= 64, "size_64_or_more");
+        ex.probe_if(c.f.n() >= 256 || c.f.m() >= 256 || c.f.s.len() >= 256 || c.f.t.len() >= 256, "size_256_or_more");
         ex.probe_if(cyclic, "cyclic_workload");
         ex.probe_if(!cyclic && (0..c.f.n()).any(|v| c.f.e.iter().map(|e| e.s.iter().filter(|x| **x == v).count()).sum::<usize>() >= 2), "fan_out_through_shared_node");
         ex.probe_if(!cyclic && graphref::op_depths(&c.f, &vec![true; c.f.m()]).0 >= 3, "depth_three_or_more");
